@@ -73,6 +73,8 @@ type Emitter struct {
 	strConsts map[string]string
 	typeTags map[string]int
 	tagNames []string
+	tagTypes map[int]types.Type    // Go type of a tag (tags made from a name only have none)
+	ifaces   map[string]types.Type // interface types whose impl_ predicate is in use
 	Assumed map[string]bool // trusted contracts / axioms used
 	usesQuant bool
 	hsorts  map[string]string
@@ -194,6 +196,13 @@ func (em *Emitter) typeTag(t types.Type) int {
 	id := len(em.typeTags) + 1
 	em.typeTags[k] = id
 	em.tagNames = append(em.tagNames, k)
+	if em.tagTypes == nil {
+		em.tagTypes = map[int]types.Type{}
+	}
+	em.tagTypes[id] = t
+	for _, it := range em.ifaces {
+		em.implFact(it, id, t)
+	}
 	return id
 }
 
